@@ -91,6 +91,55 @@ def brute(cls, setting):
   return total
 
 
+def spec_count(counts, setting, n_total):
+  """number of legal assignments with admissible sizes, by multiplying the per-geo generating polynomials in (T, C)
+  (exact integer arithmetic): the property's sentence for class vectors too large to enumerate"""
+  from fractions import Fraction
+  poly = {(0, 0): 1}
+  steps = {'tFixed': [(1, 0)], 'cFixed': [(0, 1)], 'ct': [(1, 0), (0, 1)], 'tx': [(1, 0), (0, 0)],
+           'cx': [(0, 1), (0, 0)], 'ctx': [(1, 0), (0, 1), (0, 0)]}
+  for c, k in counts.items():
+    for _ in range(k):
+      nxt = {}
+      for (t, cc), v in poly.items():
+        for dt, dc in steps[c]:
+          key = (t + dt, cc + dc)
+          nxt[key] = nxt.get(key, 0) + v
+      poly = nxt
+  tr, cr, tol = setting.get('treatment_geos_range'), setting.get('control_geos_range'), setting.get('geo_ratio_tolerance')
+  total = 0
+  for (t, c), v in poly.items():
+    if t == 0 or c == 0:
+      continue
+    if tr and not tr[0] <= t <= tr[1]:
+      continue
+    if cr and not cr[0] <= c <= cr[1]:
+      continue
+    if tol is not None:
+      ft = Fraction(tol)
+      if not (1 / (1 + ft) <= Fraction(c, t) <= 1 + ft):
+        continue
+    total += v
+  return total
+
+
+def large_case(job):
+  counts, setting = job
+  import pandas as pd
+  from matched_markets.methodology import tbrmmdata, tbrmatchedmarkets, tbrmmdesignparameters, geoeligibility
+  cls = [c for c, k in counts.items() for _ in range(k)]
+  n = len(cls)
+  el = pd.DataFrame({'geo': [f'g{i}' for i in range(n)], 'control': [CODE[c][0] for c in cls],
+                     'treatment': [CODE[c][1] for c in cls], 'exclude': [CODE[c][2] for c in cls]})
+  try:
+    par = tbrmmdesignparameters.TBRMMDesignParameters(n_test=2, iroas=1.0, **setting)
+    mm = tbrmatchedmarkets.TBRMatchedMarkets(
+        tbrmmdata.TBRMMData(frame(n), 'response', geoeligibility.GeoEligibility(el)), par)
+    return {'count': int(mm.count_max_designs()), 'type': type(mm.count_max_designs()).__name__}
+  except Exception as e:
+    return {'error': type(e).__name__ + ': ' + str(e)[:100]}
+
+
 def wire(iid, cls, setting):
   L = [f'inst {iid}']
   if 'treatment_geos_range' in setting:
@@ -151,10 +200,41 @@ def run(out, tier, model_ok=True):
         out.mismatch('count', case, f'classes {cls} setting {s}: implementation count {r["count"]} listing {r["listing"]}; '
                      f'model count {m.get("count")} listing {m.get("listing")} ev {len(m["ev"])} (order compared too)')
     out.count((tuple(cls), json.dumps(case['setting'], sort_keys=True)) if r['count'] > 0 else None)
+  # large class vectors (cannot be enumerated): the count must equal the exact number of legal assignments
+  big_jobs = []
+  for _ in range(12 if tier == 'quick' else 150):
+    kind = rng.choice(['ctx', 'mixed', 'mixed', 'wide'])
+    if kind == 'ctx':
+      counts = {'ctx': rng.choice([36, 40, 48, 60])}
+    elif kind == 'wide':
+      counts = {'ctx': rng.randint(20, 34), 'tx': rng.randint(0, 6), 'cx': rng.randint(0, 6), 'ct': rng.randint(0, 4),
+                'tFixed': rng.randint(0, 2), 'cFixed': rng.randint(0, 2)}
+    else:
+      counts = {c: rng.randint(0, 9) for c in CLASSES}
+    counts = {c: k for c, k in counts.items() if k}
+    n_tot = sum(counts.values())
+    st = rng.choice([{}, {}, {'geo_ratio_tolerance': 1.0}, {'treatment_geos_range': (1, max(1, n_tot // 2))},
+                     {'control_geos_range': (2, max(2, n_tot - 3)), 'geo_ratio_tolerance': 0.5}])
+    big_jobs.append((counts, st))
+  with mp.Pool(min(16, os.cpu_count() or 4)) as pool:
+    big = pool.map(large_case, big_jobs)
+  n_big_over = 0
+  for (counts, st), r in zip(big_jobs, big):
+    case = {'class_counts': counts, 'setting': {k: list(v) if isinstance(v, tuple) else v for k, v in st.items()}}
+    want = spec_count(counts, st, sum(counts.values()))
+    n_big_over += want > 2 ** 53
+    if 'error' in r:
+      out.oracle_violation({'call': 'count_max_designs', 'symptom': 'exception'}, case, f'{counts} {st}: {r["error"]}')
+    elif r['count'] != want:
+      out.oracle_violation({'call': 'count_max_designs', 'symptom': 'count-mismatch', 'large': True}, case,
+                           f'class counts {counts} setting {st}: count_max_designs={r["count"]} but the number of legal '
+                           f'assignments is {want} (difference {r["count"] - want})')
+    out.count((json.dumps(counts, sort_keys=True), json.dumps(case['setting'], sort_keys=True)))
+  out.extra.update({'large_vectors': len(big_jobs), 'large_vectors_above_2^53': n_big_over})
   out.rule = ('all multisets of the six admitted eligibility classes with <= %d geos (class positions shuffled), each under %d '
               'size-range / geo-ratio settings (quick: a sample of 3 settings at the largest size); compared: count_max_designs, '
               'length and distinctness of the generator listing, brute-force count of legal assignments, and the Lean model '
-              '(count, listing order); non-trivial = positive count; distinct by (class vector, setting)' % (max_n, len(settings)))
+              '(count, listing order); plus large class vectors (20-60 geos, counts up to 3^60) compared with the exact number of legal assignments; non-trivial = positive count; distinct by (class vector, setting)' % (max_n, len(settings)))
   out.extra.update({'cases': len(jobs), 'max_geos': max_n, 'settings': len(settings),
                     'exhaustive': True, 'positive_counts': len(out.nontrivial)})
   out.sample({'classes': jobs[len(jobs) // 2][0], 'setting': str(jobs[len(jobs) // 2][1]), 'result': {k: v for k, v in reals[len(jobs) // 2].items() if k != 'pairs'}})
